@@ -42,6 +42,11 @@ func (w *World) connOpts() tchannel.ConnectionOptions {
 	return co
 }
 
+// connOptsBig is connOpts without the tiny-send-buffer draw.
+func (w *World) connOptsBig() tchannel.ConnectionOptions {
+	return tchannel.ConnectionOptions{ChecksumType: checksumTypes[scn(len(checksumTypes))]}
+}
+
 // linkDefaults draws transport parameters for every new link.
 func (w *World) linkDefaults() {
 	latMode := scn(4)
